@@ -96,6 +96,12 @@ impl<const TOTAL_NUM_BITS: u32, const NUM_INDEX_BITS: u32>
         self.last_accumulator = 0;
         self.rolled_over = false;
     }
+
+    /// `pa.verif_bits()` is the raw accumulator value, read-only verification hook
+    #[cfg(feature = "verif-hooks")]
+    pub fn verif_bits(&self) -> u32 {
+        self.accumulator
+    }
 }
 
 #[cfg(test)]
